@@ -45,9 +45,20 @@ def gen_table(rng):
     return nrows, cols
 
 
-def make_db(path, nrows, cols):
+PK = [False]
+
+
+def make_db(path, nrows, cols, rng=None):
+    PK[0] = False
     conn = sqlite3.connect(path)
-    conn.execute('create table tbl (%s)' % ', '.join('"%s" %s' % (n, k) for n, k, _ in cols))
+    decl = ', '.join('"%s" %s' % (n, k) for n, k, _ in cols)
+    # sometimes with a composite primary key (every member of it is flagged pk by SQLite, yet may repeat on its own)
+    if rng is not None and len(cols) >= 2 and nrows > 1 and rng.random() < 0.35:
+        pairs = [(cols[0][2][r], cols[1][2][r]) for r in range(nrows)]
+        if all(a is not None and b is not None for a, b in pairs) and len(set(pairs)) == len(pairs):
+            decl += ', primary key ("%s", "%s")' % (cols[0][0], cols[1][0])
+            PK[0] = True
+    conn.execute('create table tbl (%s)' % decl)
     for r in range(nrows):
         conn.execute('insert into tbl values (%s)' % ','.join('?' * len(cols)), [c[2][r] for c in cols])
     conn.commit()
@@ -96,6 +107,14 @@ def perturbations(name, kind, cells, cons, rng):
         out.append(('min', cons['min'] - 1))
     if 'max' in cons and kind in ('integer', 'real'):
         out.append(('max', cons['max'] + 1))
+    if kind == 'datetime' and vals:
+        # beyond the bound by an hour (often the same calendar day)
+        import datetime as _dt
+        ts = sorted(_dt.datetime.strptime(v, '%Y-%m-%d %H:%M:%S') for v in vals)
+        if 'max' in cons:
+            out.append(('max', (ts[-1] + _dt.timedelta(hours=1)).strftime('%Y-%m-%d %H:%M:%S')))
+        if 'min' in cons and ts[0].hour >= 1:
+            out.append(('min', (ts[0] - _dt.timedelta(minutes=30)).strftime('%Y-%m-%d %H:%M:%S')))
     if 'min_length' in cons and cons['min_length'] > 0:
         out.append(('min_length', 'x' * (cons['min_length'] - 1)))
     if 'max_length' in cons:
@@ -128,9 +147,9 @@ def run(ctx):
             rex = rng.random() < 0.5
             SHARED[0] = rng.random() < 0.5
             path = os.path.join(work, 't%d.db' % it)
-            make_db(path, nrows, cols)
+            make_db(path, nrows, cols, rng)
             case = {'columns': [(nm, k, [repr(x) for x in cells]) for nm, k, cells in cols], 'rex': rex,
-                    'shared_connection': SHARED[0]}
+                    'shared_connection': SHARED[0], 'composite_primary_key_on_first_two_columns': PK[0]}
             ctx.count(repr(case), nrows > 0)
             for _, k, _ in cols:
                 ctx.bump('col.' + k)
@@ -164,19 +183,27 @@ def run(ctx):
             # ---- single-row perturbations
             for ci, (nm, kind, cells) in enumerate(cols):
                 cons = cdict['fields'].get(nm)
-                if not cons or kind in ('boolean', 'datetime'):
+                if not cons or kind == 'boolean':
                     continue
                 for pk, pv in perturbations(nm, kind, cells, cons, rng):
                     row = []
                     for cj, (nm2, kind2, cells2) in enumerate(cols):
                         if cj == ci:
                             row.append(pv)
+                        elif PK[0] and cj < 2 and ci < 2:
+                            # the other member of the composite key: a value not in the table, so that the pair is new
+                            row.append({'integer': 987654321 + it, 'real': 98765.4321 + it, 'boolean': 0,
+                                        'datetime': '2031-02-03 04:05:06'}.get(kind2, 'fresh key value %d' % it))
                         else:
                             nn = [c for c in cells2 if c is not None]
                             # a value that breaks nothing in the other columns where possible
                             row.append(nn[0] if nn else None)
                     conn = sqlite3.connect(path)
-                    conn.execute('insert into tbl values (%s)' % ','.join('?' * len(cols)), row)
+                    try:
+                        conn.execute('insert into tbl values (%s)' % ','.join('?' * len(cols)), row)
+                    except sqlite3.IntegrityError:
+                        conn.close()
+                        continue                   # the table's own key forbids this row
                     conn.commit()
                     try:
                         v2, f2 = verify(path, tdda)
